@@ -37,10 +37,11 @@ func (p *Parser) parseMatchAgainst(matchFunc *ast.FunctionCall) (ast.Expression,
 		return nil, fmt.Errorf("failed to parse AGAINST expression: %w", err)
 	}
 
-	// Consume optional mode keywords until we hit )
+	// Consume optional mode keywords until we hit ) (IN NATURAL LANGUAGE MODE, IN BOOLEAN MODE,
+	// WITH QUERY EXPANSION): the modifier is kept in its canonical spelling, however it was written
 	mode := ""
 	for !p.isType(models.TokenTypeRParen) && !p.isType(models.TokenTypeEOF) {
-		mode += " " + p.currentToken.Literal
+		mode += " " + p.keywordSpelling()
 		p.advance()
 	}
 
